@@ -43,6 +43,7 @@ def be4_of(it, z):
     r = f(z)
     it.ctx.assume(z3.Length(r) == 4)
     it.ctx.assume(g(r) == z)
+    it.ctx.assume(z3.And(z == be_int(r, 4), *[z3.StrToCode(z3.SubString(r, i, 1)) <= 255 for i in range(4)]))
     it.reg.note("struct.pack/unpack('>L'): assumed contract (4 bytes, mutually inverse on 0..2**32-1)")
     return r
 
@@ -54,6 +55,10 @@ def unbe4_of(it, s):
     n = g(s)
     it.ctx.assume(z3.And(n >= 0, n < 2 ** 32))
     it.ctx.assume(z3.Implies(z3.Length(s) == 4, f(n) == s))
+    # the definition itself (big-endian value of four bytes), so that counterexample models are
+    # real byte strings; the proofs only need the two facts above
+    it.ctx.assume(z3.Implies(z3.Length(s) == 4, z3.And(n == be_int(s, 4),
+                                                       *[z3.StrToCode(z3.SubString(s, i, 1)) <= 255 for i in range(4)])))
     return n
 
 
@@ -217,7 +222,7 @@ def b_str(it, args, kw, fr):
     if isinstance(v, VInt):
         return VStr(int_to_str(v.z), "str")
     if isinstance(v, VStr) and v.kind == "bytes" and len(args) >= 2:
-        return VStr(uf("decode", StringS, StringS)(v.z), "str")
+        return decode_model(it, v, it.concrete(it.force(args[1])))
     return VStr(z3.String(it.ctx.namer("str")), "str")
 
 
@@ -576,6 +581,20 @@ def m_jsondict(it, recv, meth, args, kwargs):
     raise OutOfSubset(f"json dict method {meth}")
 
 
+def norm_enc(e):
+    return str(e).lower().replace("-", "").replace("_", "")
+
+
+def decode_model(it, b, enc):
+    enc = norm_enc(enc)
+    ok = uf(f"decodable_{enc}", StringS, BoolS)(b.z)
+    if it.ctx.branch(z3.Not(ok), "decode-fails"):
+        it.raise_("UnicodeDecodeError")
+    r = uf(f"decode_{enc}", StringS, StringS)(b.z)
+    it.ctx.assume(uf(f"encode_{enc}", StringS, StringS)(r) == b.z)
+    return VStr(r, "str")
+
+
 def m_str(it, s, meth, args, kwargs):
     kind = s.kind
     a = [it.force(x) for x in args]
@@ -614,8 +633,12 @@ def m_str(it, s, meth, args, kwargs):
     if meth == "encode":
         if kind != "str":
             it.raise_("AttributeError", VStr("bytes has no encode"))
-        enc = it.concrete(a[0]) if a else "utf-8"
+        enc = norm_enc(it.concrete(a[0]) if a else "utf8")
         out = uf(f"encode_{enc}", StringS, StringS)(s.z)
+        if enc != "ascii":
+            # ground instance of the codec round trip (assumed contract of the codec)
+            it.ctx.assume(uf(f"decodable_{enc}", StringS, BoolS)(out))
+            it.ctx.assume(uf(f"decode_{enc}", StringS, StringS)(out) == s.z)
         if enc == "ascii":
             ok = z3.InRe(s.z, z3.Star(z3.Range(chr(0), chr(127))))
             if it.ctx.branch(z3.Not(ok)):
@@ -626,11 +649,8 @@ def m_str(it, s, meth, args, kwargs):
     if meth == "decode":
         if kind != "bytes":
             it.raise_("AttributeError", VStr("str has no decode"))
-        enc = it.concrete(a[0]) if a else "utf-8"
-        ok = uf(f"decodable_{enc}", StringS, BoolS)(s.z)
-        if it.ctx.branch(z3.Not(ok), "decode-fails"):
-            it.raise_("UnicodeDecodeError")
-        return VStr(uf(f"decode_{enc}", StringS, StringS)(s.z), "str")
+        enc = norm_enc(it.concrete(a[0]) if a else "utf8")
+        return decode_model(it, s, enc)
     if meth == "join":
         seq = a[0]
         if isinstance(seq, (VList, VTuple)):
